@@ -3,6 +3,7 @@ import FV.Props.C12
 import FV.Accepts
 import FV.SizeView
 import FV.ValOk
+import FV.ValWf
 /-! # C02 — the acceptance set, constructor by constructor
 
 "`from_bytes` succeeds iff the slice is suitably aligned and holds a well-formed encoding": the alignment / minimum-size gate is
@@ -79,4 +80,18 @@ theorem C02_content_consistent (t : Ty) (s : Slice) (v : Val) (hv : t.dict.valid
 example : (Ty.vec (.prim 1 1) ⟨2, 2, false⟩).dict.validate ⟨0, [2, 0, 7, 8, 9, 9]⟩ = .ok () ∧
     (Ty.vec (.prim 1 1) ⟨2, 2, false⟩).dict.walk ⟨0, [2, 0, 7, 8, 9, 9]⟩ = .ok (.vec 4 [.raw [7], .raw [8]]) ∧
     (Val.vec 4 [.raw [7], .raw [8]]).ok := ⟨by decide, rfl, by simp [Val.ok, Val.okL]⟩
+
+/-- **C02, the content is a well-typed value of the type.** For every descriptor and every accepted slice, the content read through
+the accessors has exactly the shape the type prescribes, at every level: scalar leaves of the declared size; arrays of the declared
+length; one value per field of a struct and of the active enum variant; **an enum tag below the number of variants**; vectors and
+strings within their capacity, the capacity within what the length type can count, strings valid UTF-8; every element, field and
+FlexVec item again well typed. (`ValWF`, defined by recursion on the content; `Ty.wfLaw` by recursion over the descriptor.) -/
+theorem C02_content_well_typed (t : Ty) (s : Slice) (v : Val) (hv : t.dict.validate s = .ok ()) (hw : t.dict.walk s = .ok v) :
+    ValWF t v :=
+  Ty.wfLaw t s v (validate_ok_iff.1 hv).2.2 hw
+
+/-- non-vacuity: the same `FlatVec<u8, u16>` image; and `ValWF` does exclude ill-typed contents (a tag out of range) -/
+example : ValWF (Ty.vec (.prim 1 1) ⟨2, 2, false⟩) (.vec 4 [.raw [7], .raw [8]]) := by
+  simp [ValWF, ValWFA, LenTy.max]
+example : ¬ ValWF (Ty.cenum ⟨1, 1, false⟩ 3) (.tag 3 []) := by simp [ValWF]
 end FV.Props
